@@ -334,6 +334,44 @@ def other_subscriptions(ctx: Ctx) -> None:
                 res.violation("C17/unsubscribe/no-unsubscribe-request", f"client wrote {sent_names[-6:]}", case)
 
 
+def same_callable_twice(ctx: Ctx) -> None:
+    """The application subscribes the SAME callable again (the only way to change the log level of subscribe_logs; two consumers sharing one
+    advertisement handler): the handler is still invoked once per message, and one unsubscribe call removes it."""
+    from aioesphomeapi import api_pb2 as pb
+
+    res = ctx.res
+    idx = 0
+    for which in ("logs", "raw_advertisements"):
+        for n_sub in (2, 3):
+            for coalesce in (False, True):
+                idx += 1
+                if not ctx.mine(idx):
+                    continue
+                with Sim() as sim:
+                    cli, dconn = session(sim)
+                    got: list[Any] = []
+                    handler = got.append
+                    unsubs = []
+                    for k in range(n_sub):
+                        if which == "logs":
+                            unsubs.append(cli.subscribe_logs(handler, log_level=(3, 5, 4)[k]))
+                        else:
+                            unsubs.append(cli.subscribe_bluetooth_le_raw_advertisements(handler))
+                        sim.run_for(0.001)
+                    if which == "logs":
+                        msgs = [pb.SubscribeLogsResponse(level=3, message=b"line %d" % i) for i in range(5)]
+                    else:
+                        msgs = [pb.BluetoothLERawAdvertisementsResponse(advertisements=[pb.BluetoothLERawAdvertisement(address=i + 1, rssi=-i, data=b"x")]) for i in range(5)]
+                    send_stream(sim, dconn, msgs, [len(msgs)] if coalesce else [1] * len(msgs))
+                    res.evaluations += 1
+                    res.count("workload/same-callable-subscribed-again")
+                    res.sig("same-callable", which, n_sub, coalesce)
+                    case = {"kind": "same-callable-twice", "subscription": which, "times": n_sub, "same_chunk": coalesce}
+                    if len(got) != len(msgs):
+                        res.violation("C17/other/handler-count-for-callable-subscribed-again", f"{which}: the same handler subscribed {n_sub}x; {len(msgs)} messages "
+                                      f"produced {len(got)} handler calls", case, trace=sim.trace(30))
+
+
 def unsubscribe_positions(ctx: Ctx) -> None:
     from aioesphomeapi import api_pb2 as pb
 
@@ -657,6 +695,7 @@ def shard(ctx: Ctx) -> None:
 
     _device.AUTO_ROTATE = True   # chunking of the device's stream rotates: as written / replies coalesced / cut into 1..8-byte pieces
     unsubscribe_inside_callback(ctx)
+    same_callable_twice(ctx)
     camera_across_subscriptions(ctx)
     state_streams(ctx)
     camera_interleavings(ctx)
